@@ -80,6 +80,14 @@ Definition eval_op (op : opname) (a b : value) : option result :=
              | _, _ => None
              end
       end
+  | Some (GNotRel l r rr) =>
+      match op with
+      | OpCmp | OpPartialCmp => None
+      | _ => match operand l a b, operand rr a b with
+             | Some x, Some y => Some (RB (negb (rel_eval r x y)))
+             | _, _ => None
+             end
+      end
   | Some (GCmp _ _) =>
       match op with OpCmp => option_map RO (eval_cmp a b) | _ => None end
   | Some (GSomeCmp l r) =>
